@@ -1,4 +1,4 @@
-"""C05  Cross-target machine code preserves IR behaviour -- RISC-V (rv32im, with and without rvc) only.
+"""C05  Cross-target machine code preserves IR behaviour -- RISC-V (rv32im, with and without rvc) and ARM A32.
 
 Per program of the family (corpus/cprogs.py + the families in props/_c05progs.py) and configuration
 (optimisation level, rvc on/off): the REAL pipeline runs concretely
@@ -12,6 +12,11 @@ Obligations per path (premise: the IR execution is defined): same return value (
 bytes of every global and buffer, same sequence of external calls with the same arguments, sp / fp / callee-saved
 registers restored and the caller's stack frame untouched, every executed word a modelled RV32IMC instruction.
 A back-end exception on a program of the family is reported as "code-produced" = False.
+
+ARM A32 (march 'arm'): the same pipeline and obligations; the linked bytes run on ref/arm32.py (props/_c05arm.py),
+registers r0..r12 and the N Z C V flags are symbolic, the convention is read from the arm arch object (arguments r1..r4
+then stack, result r0, callee-saved r5..r10 + fp r11 + sp), ppci's own runtime object (arch.get_runtime(): __sdiv) is
+linked into every image and executed; a reference to a routine that exists nowhere is a link failure = no code.
 """
 import os
 import z3
@@ -33,25 +38,33 @@ BOUNDS = {
                           "I-immediate, lui/addi carry, 32-bit edges), every IR binary operator and comparison on i8 u8 i16 u16 i32 u32 "
                           "(IR text through the real reader), unary - ~ with the operand reused, all 30 integer casts, stack frames of "
                           "100..600 words around the 2 KiB immediate edge",
-              "configurations": "optimisation levels 0 and 2, rv32im without rvc; a rotating third of the programs also with rvc",
+              "configurations": "riscv: optimisation levels 0 and 2, rv32im without rvc; a rotating third of the programs also with rvc.  "
+                                "arm: one level per program (0 / 2 alternating with the seed); constants K around the ARM modified immediate "
+                                "and the 12-bit offset (255 256 257 0xff00 4095 4096 -255 -256 -4096 ..), frames of 60..1030 words",
               "symbolic": "argument registers (all 32 bits; an IR argument narrower than 32 bits is the low part), every other "
                           "register x3..x31, initial bytes of globals without initialiser (<=32 bytes), 16 bytes behind each "
                           "pointer argument, the byte filling all other memory, 4 external call results and what the callee "
                           "leaves in caller-saved registers",
               "unwinding": "400 machine instructions, 400 IR instructions, call depth 8, 120 paths per job (thorough 400), 15 s per "
                            "branch-feasibility query and two undecided branches per job (paths hitting a bound are cut and counted, "
-                           "nothing is claimed for them)"},
+                           "nothing is claimed for them); arm: 60 paths per job (thorough 400), 40 instructions inside ppci's runtime "
+                           "helper __sdiv per run"},
     "thorough": {"programs": "same families with 21 constants K",
-                 "configurations": "every program x levels 0/1/2/s (s also selects ir_to_object(opt='size')) x {rv32im, rv32imc}; the "
+                 "configurations": "every program x levels 0/1/2/s (s also selects ir_to_object(opt='size')) x {rv32im, rv32imc, arm}; the "
                                    "single-operation IR programs additionally with sign-/zero-extended argument registers",
                  "unwinding": "same, 400 paths per job"}}
-OUTSIDE = ["ARM, Thumb, m68k, mips, x86_64 and every other target (no ISA model): not claimed",
+OUTSIDE = ["Thumb, m68k, mips, x86_64 and every other target (no ISA model): not claimed",
+           "arm: words that ref/arm32.py does not model (cond=1111 space, LDRD/STRD, LDREX.., VFP/NEON/coprocessor, media / saturating "
+           "instructions, exception returns) end a run as 'machine-code-executable' = False; none occurs in the stated families",
+           "arm: quotients that need more than 40 instructions of the __sdiv loop (cut)",
            "floating point, 64-bit integer types, struct-by-value arguments, inline assembly",
            "programs outside the stated families; executions longer than the unwinding bound",
            "external callees that modify memory visible to the caller",
            "function addresses as data (indirect calls through non-constant pointers)",
            "traps (misaligned access, access faults): the model has none; self-modifying code (fetch reads the linked image)"]
-ASSUMPTIONS = ["ref/rv32.py states the RISC-V Unprivileged ISA manual 20191213 correctly (self-test under C08; the integer and the "
+ASSUMPTIONS = ["ref/arm32.py states the ARM ARM (DDI 0406C) A32 subset correctly (self-test under C08/C07 arm; integer and z3 back ends "
+               "cross-checked here on every path's model); ARM state, little endian, SCTLR.A = 0",
+               "ref/rv32.py states the RISC-V Unprivileged ISA manual 20191213 correctly (self-test under C08; the integer and the "
                "z3 back end of its semantics are cross-checked here on every path's model)",
                "ref/irsem.py states the IR semantics (wrap-around, truncating / %, arithmetic >> on signed); premise: the IR "
                "execution is defined (no division by zero / overflow, shift count < width, accesses inside a live object)",
